@@ -7,6 +7,7 @@ package main
 // (prefix "END "). Exit status: 0 normal (violations are reported in the JSON), 2 internal error.
 
 import (
+	"sync/atomic"
 	"crypto/sha256"
 	"encoding/hex"
 	"encoding/json"
@@ -20,6 +21,7 @@ import (
 
 	"github.com/ryogrid/SamehadaDB/lib/storage/disk"
 	"verif/simrt"
+	"verif/simrt/simsync"
 )
 
 type RunReport struct {
@@ -132,6 +134,8 @@ func main() {
 	os.Stdout = devnull
 	if os.Getenv("VERIF_ENGINE_STDOUT") != "" {
 		os.Stdout = os.Stderr
+		disk.SimDebug = true
+		simsync.DebugOwners = true
 	}
 	emit := func(prefix string, v any) {
 		b, _ := json.Marshal(v)
@@ -177,13 +181,56 @@ func main() {
 	}
 	t0 := time.Now()
 	done := 0
+	// per-run watchdog: a run that does not finish is reported as a hang (with the goroutine
+	// dump) and ends this worker; the orchestrator continues with the next chunk
+	var curRun, curStart int64
+	var curSeed uint64
+	go func() {
+		limit := int64(150)
+		if flTier == "thorough" {
+			limit = 600
+		}
+		for {
+			time.Sleep(2 * time.Second)
+			st := atomic.LoadInt64(&curStart)
+			if st != 0 && time.Now().Unix()-st > limit {
+				buf := make([]byte, 1<<20)
+				n := runtime.Stack(buf, true)
+				stack := string(buf[:n])
+				site := "?"
+				if i := strings.Index(stack, "goroutine 1 "); i >= 0 {
+					site = panicSite(stack[i:])
+				}
+				rep := RunReport{Driver: drv, Run: int(atomic.LoadInt64(&curRun)), Seed: curSeed, Outcome: "violation", Sig: "hang", Nontrivial: true}
+				v := Violation{Property: flProp, Class: "hang", Site: site, Detail: fmt.Sprintf("run did not finish within %d s; main goroutine in %s", limit, site)}
+				rf := ReplayFile{Property: flProp, Driver: drv, Seed: curSeed, Tier: flTier, Violation: v, Note: "hang: replay by seed; stack: " + firstLines(stack, 60)}
+				if liveCfg != nil {
+					rf.Cfg = mustJSON(liveCfg)
+				}
+				if liveOps != nil {
+					b, _ := marshalOps(*liveOps)
+					rf.Ops = b
+					rf.OpsCount = len(*liveOps)
+				}
+				rep.Viol = []ReplayFile{rf}
+				emit("RUN", rep)
+				emit("END", map[string]any{"runs": done + 1, "wall_s": time.Since(t0).Seconds(), "hang": true})
+				os.Exit(0)
+			}
+		}
+	}()
 	for i := flStart; i < flStart+flRuns; i++ {
 		if flBudget > 0 && time.Since(t0) > time.Duration(flBudget)*time.Second {
 			break
 		}
 		seed := simrt.Mix(flSeed, uint64(i)+1)
 		t1 := time.Now()
+		curSeed = seed
+		atomic.StoreInt64(&curRun, int64(i))
+		atomic.StoreInt64(&curStart, t1.Unix())
+		liveCfg, liveOps = nil, nil
 		rep := d(i, seed)
+		atomic.StoreInt64(&curStart, 0)
 		rep.Driver = drv
 		rep.Run = i
 		rep.Seed = seed
@@ -229,4 +276,16 @@ func mustJSON(v any) json.RawMessage {
 		panic(err)
 	}
 	return b
+}
+
+// liveCfg / liveOps: what the current run is executing (for the hang report)
+var liveCfg any
+var liveOps *[]Op
+
+func firstLines(s string, n int) string {
+	lines := strings.SplitN(s, "\n", n+1)
+	if len(lines) > n {
+		lines = lines[:n]
+	}
+	return strings.Join(lines, "\n")
 }
